@@ -14,7 +14,7 @@ from .common import C, Nat, Opt, Raw, Rec, Str, coq
 
 ID = "C01"
 COQ_FILES = ["C01/Model.v", "C01/Spec.v", "C01/Check.v", "C01/Proofs.v", "C01/Occ.v", "C01/PlanState.v", "C01/PlanEq.v",
-             "C01/Property.v"]
+             "C01/Bounds.v", "C01/Property.v"]
 COQ_PRELUDE = ("From Coq Require Import ZArith List Bool String.\nImport ListNotations.\n"
                "From KD Require Import C01.Model C01.Spec C01.Check.\nOpen Scope Z_scope.\n")
 COQ_CHECK = "check"
@@ -38,8 +38,11 @@ TRUSTED = [
     "Check.v (tab_load: table-driven loaders incl. the call-stamp convention) is test scaffolding, not part of the proofs",
 ]
 ASSUMPTIONS = [
-    "valid indices: ints in [-len, len), lists of such, any slice (step 0 = ValueError); idx < -len or >= len is handed "
-    "to the loaders unchecked by ModeWrapper (mw[-len-1] reaches the dataset as -1) and is outside the property",
+    "indices: any int (also numpy ints), lists of ints, any slice (step 0 = ValueError).  idx < -len is an IndexError "
+    "(Python sequence semantics; repaired by fixes/C01_negative_index_range.patch).  idx >= len is NOT checked by "
+    "ModeWrapper (an endless balanced KDConcatDataset has no len): it is handed to the loaders unchanged -- IndexError "
+    "exactly when a loader / KDSubset below raises it; the check verifies this hand-through behaviour and reports the "
+    "deviation from sequence semantics as a recorded finding (fixes/C01_index_above_len.txt, corpus/C01/known_above_range.json)",
     "'ctx.<key>' items placed after an item that records the key (never / not yet recorded keys: KeyError is claimed "
     "where no call order could have recorded it, otherwise only model agreement)",
     "fused_operations pass the constructor's two assertions and contain no empty group (groups_ok); stacks declaring "
@@ -48,17 +51,37 @@ ASSUMPTIONS = [
     "getitem_positions_pure: loaders deterministic in (item, index), the joint loader's j-th component equals the j-th "
     "member's own item, group members and joint loader names are loader names (not 'index' / 'ctx.*'); the general "
     "theorems (getitem_positions, getitem_is_spec_sample, ctx_fresh, shape, sequence semantics) need none of this",
-    "ModeWrapper.__getattr__ delegation of arbitrary attributes, collators, worker_init_fn are not part of this check",
+    "loaders that raise their own exception (after their ctx writes): the access ends with that exception and the "
+    "NEXT access is compared with model and spec as usual (nothing of the aborted sample survives); the aborted access "
+    "itself is judged by the Python oracle only (loaders of the Coq model are total functions)",
+    "ModeWrapper.__getattr__ delegation (marker attributes defined and shadowed at random layers), root_dataset / "
+    "all_wrappers / has_wrapper(_type) / get_wrappers_of_type / collators / dispose / context manager through the "
+    "ModeWrapper are checked by the Python oracle here and modelled in Coq under C02 (AttrModel.AMode)",
+    "DataLoader cases: torch's default_collate and the fetcher are trusted to hand over what dataset[i] returns; the "
+    "check is that un-collating the batches gives back the samples of plain iteration (which model and spec cover), "
+    "with num_workers 0 (quick) and 2 (thorough), and that has/get/set_item address the right column of a real batch; "
+    "a one-item batch that is itself a list / tuple (strings, multi-view items) is ambiguous for the static helpers "
+    "(isinstance(batch, (list, tuple)) reads it as a several-item batch) and is not claimed",
 ]
 ALLOWED_AXIOMS = []
+KNOWN_FINDINGS_PROPOSED = [
+    {"property": "C01", "match": {"probe": "above_range"},
+     "what": "ModeWrapper(ds, 'index')[len(ds)] returns len(ds) (and mw[i] for any i >= len returns whatever the loaders "
+             "answer) instead of raising IndexError; not repaired: a bound check needs len(), which an endless balanced "
+             "KDConcatDataset refuses (fixes/C01_index_above_len.txt)"},
+]
 RULE = ("random stacks: root of size 0-6 with 2-5 token items (KDDataset or TorchWrapper root), 0-3 layers (KDWrapper "
         "subclasses overriding/adding items with 0-2 ctx writes each incl. index-dependent keys, KDSubset with repeats), "
         "0-2 fused groups of 1-3 ops (occasionally containing 'index', unimplemented, duplicated or declared below the "
         "outermost layer); modes of 1-7 items with index / ctx.* / duplicates / permutations around the groups, a few "
         "unavailable or empty items; 40% of the stacks stamp every loader call with a per-sample call counter kept in the ctx "
         "(makes visible which load was delivered and that group members come from one joint load); histories of 1-6 accesses int / negative / slice(start,stop,step incl. None, "
-        "out-of-range, negative, 0) / list, then iteration and len; return_ctx on/off; 0-3 static-helper and 0-2 "
-        "TorchWrapper probes.  non-trivial = constructed and at least one sample returned; distinct by (item pattern "
+        "out-of-range, negative, 0) / list, 8% out-of-range ints (below -len, at/above len, +-1e20, also inside lists), 10% "
+        "numpy ints, then iteration and len; return_ctx on/off; 0-3 static-helper and 0-2 TorchWrapper probes; 12% of the "
+        "stacks with 1-2 loaders raising at one index after their ctx writes; marker attributes defined at random layers; 7% "
+        "(plus 120 directed) with a real DataLoader (batch sizes 1-5, drop_last, over KDSubset / fused wrappers, with/without "
+        "ctx) and the static helpers on its batches; directed: whitespace variants of the mode string (double / leading / "
+        "trailing spaces, empty mode).  non-trivial = constructed and at least one sample returned; distinct by (item pattern "
         "relative to the groups, layer kinds, rc, index forms)")
 
 POOL = ["x", "class", "semseg", "y", "z"]
@@ -75,6 +98,14 @@ def n_levels(case):
 def outer_len(case):
     n = case["size"]
     for L in case["layers"]:
+        if L["t"] == "sub":
+            n = len(L["indices"])
+    return n
+
+
+def level_len(case, level):
+    n = case["size"]
+    for L in case["layers"][:level]:
         if L["t"] == "sub":
             n = len(L["indices"])
     return n
@@ -125,9 +156,9 @@ def stamp_value(v, n):
 
 
 def exp_direct(case, name, idx):
-    """(value, ctx) of a direct call stack.getitem_<name>(idx, {}) on the declared stack"""
+    """(value, ctx) of a direct call stack.getitem_<name>(idx, {}) on the declared stack (LoaderBoom where it raises)"""
     w = []
-    v = exp_load(case, n_levels(case), name, idx, w)
+    v = exp_load(case, n_levels(case), name, idx, w, boom=True)
     d = {}
     if stamped(case):
         v = stamp_value(v, 0)
@@ -145,29 +176,58 @@ def wval(key, level, name, idx):
     return f"{key}<{level}.{name}.{idx}"
 
 
-def exp_load(case, level, name, idx, writes):
-    """token the loader `getitem_<name>` of the dataset at `level` returns for idx; appends its ctx writes"""
+class LoaderBoom(Exception):
+    """what a loader of the harness stack raises (after its ctx writes) where the case says so"""
+
+
+def raises_at(case, level, name, idx):
+    return [level, name, idx] in case.get("raises", [])
+
+
+def exp_load(case, level, name, idx, writes, boom=False):
+    """token the loader `getitem_<name>` of the dataset at `level` returns for idx; appends its ctx writes; with boom=True
+    raises LoaderBoom where a loader of the stack is declared to raise"""
     if level == 0:
         items = case["root"]["items"]
         if name not in items:
             raise LookupError(name)
         for key, per in items[name]:
             writes.append((wkey(key, per, idx), wval(key, 0, name, idx)))
+        if boom and raises_at(case, 0, name, idx):
+            raise LoaderBoom()
         return f"{name}@{idx}"
     L = case["layers"][level - 1]
     if L["t"] == "sub":
-        return exp_load(case, level - 1, name, L["indices"][idx], writes)
+        return exp_load(case, level - 1, name, L["indices"][idx], writes, boom)
     if name in L["impl"]:
         if avail(case, level - 1, name):
-            val = f"w{level}.{name}({exp_load(case, level - 1, name, idx, writes)})"
+            val = f"w{level}.{name}({exp_load(case, level - 1, name, idx, writes, boom)})"
         else:
             val = f"w{level}.{name}@{idx}"
         for key, per in L["impl"][name]:
             writes.append((wkey(key, per, idx), wval(key, level, name, idx)))
+        if boom and raises_at(case, level, name, idx):
+            raise LoaderBoom()
         return val
     if name in L["joint"]:
-        return tuple(idx if op == "index" else exp_load(case, level, op, idx, writes) for op in L["joint"][name])
-    return exp_load(case, level - 1, name, idx, writes)
+        return tuple(idx if op == "index" else exp_load(case, level, op, idx, writes, boom) for op in L["joint"][name])
+    return exp_load(case, level - 1, name, idx, writes, boom)
+
+
+def booms(case, j):
+    """does loading sample j (index valid for the outermost dataset or beyond) run into a raising loader"""
+    if not case.get("raises"):
+        return False
+    lvl = n_levels(case)
+    for c in planned_calls(items_of(case), declared_groups(case)):
+        if is_named(c):
+            try:
+                exp_load(case, lvl, c, j, [], boom=True)
+            except LoaderBoom:
+                return True
+            except (LookupError, IndexError):
+                pass
+    return False
 
 
 def items_of(case):
@@ -258,10 +318,14 @@ def enc(v):
     if isinstance(v, dict):
         return {"d": sorted([[str(k), enc(a)] for k, a in v.items()], key=lambda kv: kv[0])}
     if hasattr(v, "item") and hasattr(v, "dtype"):
+        if getattr(v, "ndim", 0) > 0 and hasattr(v, "tolist"):
+            return {"l": [enc(a) for a in v.tolist()]}
         try:
             return {"i": int(v.item())}
         except Exception:
             pass
+        if hasattr(v, "tolist"):
+            return {"l": [enc(a) for a in v.tolist()]}
     return {"o": repr(v)[:80]}
 
 
@@ -303,7 +367,7 @@ def _enter(st, name, ctx):
     return None
 
 
-def _mk_loader(level, name, writes, inner_has, st):
+def _mk_loader(level, name, writes, inner_has, st, boom_at=()):
     def getitem(self, idx, ctx=None):
         n = _enter(st, name, ctx)
         st["depth"] += 1
@@ -323,9 +387,15 @@ def _mk_loader(level, name, writes, inner_has, st):
         if ctx is not None:
             for key, per in writes:
                 ctx[wkey(key, per, idx)] = wval(key, level, name, idx)
+        if idx in boom_at:
+            raise LoaderBoom()
         return val
     getitem.__name__ = "getitem_" + name
     return getitem
+
+
+def _boom_at(case, level, name):
+    return tuple(i for lv, nm, i in case.get("raises", []) if lv == level and nm == name)
 
 
 def _mk_joint(name, ops, st):
@@ -364,16 +434,22 @@ def build_stack(case, st):
         if root.get("req"):
             ns["requires_propagate_ctx"] = property(lambda self: True)
         for name, writes in root["items"].items():
-            ns["getitem_" + name] = _mk_loader(0, name, writes, False, st)
+            ns["getitem_" + name] = _mk_loader(0, name, writes, False, st, _boom_at(case, 0, name))
+        for a in root.get("attrs", []):
+            ns[a] = 0
+        ns["dispose"] = lambda self: st.__setitem__("disposed", st.get("disposed", 0) + 1)
         ds = type("RootDataset", (KDDataset,), ns)()
     for k, L in enumerate(case["layers"]):
         level = k + 1
         if L["t"] == "sub":
             ds = KDSubset(ds, list(L["indices"]))
+            for a in L.get("attrs", []):
+                setattr(ds, a, level)
             continue
         ns = {}
         for name, writes in L["impl"].items():
-            ns["getitem_" + name] = _mk_loader(level, name, writes, avail(case, level - 1, name), st)
+            ns["getitem_" + name] = _mk_loader(level, name, writes, avail(case, level - 1, name), st,
+                                               _boom_at(case, level, name))
         for jn, ops in L["joint"].items():
             ns["getitem_" + jn] = _mk_joint(jn, list(ops), st)
         if L["fused"]:
@@ -382,6 +458,8 @@ def build_stack(case, st):
                 lambda self, groups=groups: KDWrapper.fused_operations.fget(self) + [list(g) for g in groups])
         if L["req"]:
             ns["requires_propagate_ctx"] = property(lambda self: True)
+        for a in L.get("attrs", []):
+            ns[a] = property(lambda self, level=level: level)
         ds = type(f"Wrapper{level}", (KDWrapper,), ns)(dataset=ds)
     return ds
 
@@ -395,6 +473,9 @@ def _safe_hasattr(obj, name):
 
 def _idx_of(acc):
     if acc["k"] == "int":
+        if acc.get("ty") == "np":
+            import numpy as np
+            return np.int64(acc["i"])
         return acc["i"]
     if acc["k"] == "list":
         return list(acc["l"])
@@ -497,6 +578,10 @@ def run_impl(case):
             o["kind"] = 1
         except KeyError:
             o["kind"] = 2
+        except IndexError:
+            o["kind"] = 3
+        except LoaderBoom:
+            o["kind"] = 5
         except Exception as e:
             o["kind"] = 9
             o["exc"] = repr(e)[:200]
@@ -505,14 +590,99 @@ def run_impl(case):
     obs["hist"] = hist
     st["log"] = []
     st["depth"] = 0
+    it = {"kind": 0, "res": []}
     try:
-        obs["iter"] = [enc(s) for s in itertools.islice(iter(mw), n + 3)]
+        for k, smp in enumerate(iter(mw)):
+            it["res"].append(enc(smp))
+            if k >= n + 2:
+                break
     except KeyError:
-        obs["iter"] = None
+        it["kind"] = 2
+    except LoaderBoom:
+        it["kind"] = 5
     except Exception as e:
-        obs["iter"] = {"exc": repr(e)[:200]}
+        it["kind"] = 9
+        it["exc"] = repr(e)[:200]
+    obs["iter"] = it
     obs["lenobs"] = len(mw)
+    obs["deleg"] = _delegation(case, mw, ds, st)
+    if case.get("dl"):
+        obs["dl"] = _dataloader(case, mw, ModeWrapper)
     return obs
+
+
+ATTR_POOL = ["who", "meta", "color"]
+
+
+def _delegation(case, mw, ds, st):
+    """ModeWrapper.__getattr__ / introspection: what the wrapped dataset answers through the ModeWrapper"""
+    d = {}
+    for a in ATTR_POOL + ["mode", "return_ctx"]:
+        try:
+            v = getattr(mw, a)
+            d[a] = v if isinstance(v, (int, str, bool)) else repr(v)[:40]
+        except AttributeError:
+            d[a] = None
+    ws = mw.all_wrappers
+    inner = ds.all_wrappers
+    d["dataset_is"] = mw.dataset is ds
+    d["getitems"] = mw.__getitems__ is None
+    d["root_is"] = mw.root_dataset is ds.root_dataset
+    d["wrappers"] = len(ws) == len(inner) + 1 and ws[0] is mw and all(a is b for a, b in zip(ws[1:], inner))
+    d["types"] = mw.all_wrapper_types == [type(mw)] + ds.all_wrapper_types
+    d["has_self"] = bool(mw.has_wrapper(mw)) and bool(mw.has_wrapper_type(type(mw)))
+    d["has_inner"] = all(mw.has_wrapper(w) and mw.has_wrapper_type(type(w)) for w in inner)
+    d["has_other"] = bool(mw.has_wrapper(object())) or bool(mw.has_wrapper_type(dict))
+    d["of_type"] = [w is mw for w in mw.get_wrappers_of_type(type(mw))] == [True]
+    d["collators"] = mw.collators == []
+    for nm in ("fused_operations", "requires_propagate_ctx"):
+        try:
+            getattr(mw, nm)
+            d[nm] = "returned"
+        except RuntimeError:
+            d[nm] = "RuntimeError"
+    st["disposed"] = 0
+    mw.dispose()
+    d["disposed"] = [st["disposed"]]
+    try:
+        with mw as m2:
+            d["enter"] = m2 is mw
+    except Exception as e:
+        d["enter"] = repr(e)[:60]
+    d["disposed"].append(st["disposed"])
+    return d
+
+
+def _dataloader(case, mw, ModeWrapper):
+    """a real torch DataLoader over the ModeWrapper: the collated batches, and the static helpers on them"""
+    import torch
+    from torch.utils.data import DataLoader
+    dl = case["dl"]
+    kw = {}
+    if dl["workers"]:
+        kw = {"num_workers": dl["workers"], "timeout": 120, "multiprocessing_context": "fork"}
+    out = {"batches": [], "helpers": []}
+    try:
+        loader = DataLoader(mw, batch_size=dl["bs"], shuffle=False, drop_last=dl["drop_last"], **kw)
+        for batch in loader:
+            out["batches"].append(enc(batch))
+            body = batch[0] if case["rc"] else batch
+            hs = {}
+            for it in dict.fromkeys(items_of(case)):
+                o = {"bare": not isinstance(body, (list, tuple))}
+                try:
+                    o["get"] = enc(ModeWrapper.get_item(mode=case["mode"], item=it, batch=body))
+                    nb = ModeWrapper.set_item(mode=case["mode"], item=it, batch=body, value="V")
+                    o["set"] = enc(nb)
+                    o["getset"] = enc(ModeWrapper.get_item(mode=case["mode"], item=it, batch=nb))
+                except (AssertionError, ValueError, IndexError) as e:
+                    o["exc"] = type(e).__name__
+                hs[it] = o
+            out["helpers"].append(hs)
+        del loader
+    except Exception as e:
+        out["exc"] = repr(e)[:300]
+    return out
 
 
 # ---------------------------------------------------------------------------
@@ -641,15 +811,38 @@ def keyerror_status(case, j):
 
 
 def ref_indices(n, acc):
-    """Python sequence semantics on the plain list [0..n): (many, indices) or 'ValueError'"""
+    """Python sequence semantics on the plain list [0..n): (many, raw indices) or 'ValueError'; the raw indices of an
+    int / list access are checked element by element by access_steps"""
     ref = list(range(n))
     if acc["k"] == "int":
-        return False, [ref[acc["i"]]]
+        return False, [acc["i"]]
     if acc["k"] == "list":
-        return True, [ref[i] for i in acc["l"]]
+        return True, list(acc["l"])
     if acc["s"] == 0:
         return "ValueError"
     return True, ref[slice(acc["a"], acc["b"], acc["s"])]
+
+
+def access_steps(case, n, raw):
+    """what loading the raw indices one after the other must do: ('s', j) = sample j is loaded; ('below', r) = r < -len:
+    IndexError (Python sequence semantics; raised by ModeWrapper before anything is loaded); ('above', r) = r >= len is
+    not checked by ModeWrapper (an endless balanced concat has no len) but handed to the loaders unchanged: ('s', r) when
+    the declared stack can load it, IndexError when a KDSubset below is indexed out of range.  Stops at the first
+    definite IndexError."""
+    steps = []
+    for r in raw:
+        if r < -n:
+            steps.append(("below", r))
+            break
+        j = r + n if r < 0 else r
+        if j >= n:
+            try:
+                _sample_facts(case, j)
+            except (IndexError, LookupError):
+                steps.append(("above", r))
+                break
+        steps.append(("s", j))
+    return steps
 
 
 def _helper_oracle(h, o):
@@ -707,10 +900,13 @@ def oracle(case, obs):
         return f"hasattr(type(stack), getitem_*) true for {sk['has_type']}"
     for s in sk["has"]:
         for i in range(n):
-            v, d = exp_direct(case, s, i)
-            if obs["direct"][s][i] != [enc(v), enc(d)["d"]]:
-                return (f"stack.getitem_{s}({i}, ctx) returned {obs['direct'][s][i]}, the declared stack yields "
-                        f"{[enc(v), enc(d)['d']]}")
+            try:
+                v, d = exp_direct(case, s, i)
+                want = [enc(v), enc(d)["d"]]
+            except LoaderBoom:
+                want = [{"o": "exc LoaderBoom"}, []]
+            if obs["direct"][s][i] != want:
+                return f"stack.getitem_{s}({i}, ctx) returned {obs['direct'][s][i]}, the declared stack yields {want}"
     # 2. static helpers / TorchWrapper
     for h, o in zip(case.get("helpers", []), obs["helpers"]):
         msg = _helper_oracle(h, o)
@@ -742,6 +938,53 @@ def oracle(case, obs):
                 return f"{what}: {msg}"
         return None
 
+    has_ctx_item = any(x.startswith("ctx.") for x in items)
+    KIND = {0: "returned", 1: "ValueError", 2: "KeyError", 3: "IndexError", 5: "the loader's exception"}
+
+    def judge(steps, kind, res, what):
+        """steps: what loading the indices one after the other must do (access_steps); -> (message | None, samples that
+        must have been returned).  The first sample that cannot be loaded ends the access with its exception: an index
+        out of range -> IndexError; a 'ctx.<key>' whose key nobody recorded -> KeyError; a raising loader -> its
+        exception (LoaderBoom).  Where the order of a fused plan decides between two of them both are accepted."""
+        maybe_key = False
+        done = []
+        for st_ in steps:
+            if st_[0] == "below":
+                allowed = {3}
+                why = (f"index {st_[1]} is below -len(dataset) = {-n}: Python sequence semantics is IndexError")
+            elif st_[0] == "above":
+                allowed = {3} | ({2} if has_ctx_item else set())
+                why = f"index {st_[1]} >= len is handed to a KDSubset below, which raises IndexError"
+            else:
+                j = st_[1]
+                ks = keyerror_status(case, j)
+                bm = booms(case, j)
+                if ks == "must" and not bm:
+                    allowed, why = {2}, f"sample {j}: a ctx.<key> item whose key no loader of the sample recorded before it"
+                elif bm:
+                    allowed = {5} | ({2} if ks != "never" else set())
+                    why = f"sample {j}: a loader raises"
+                else:
+                    if ks == "maybe":
+                        maybe_key = True
+                    done.append(j)
+                    continue
+            if maybe_key:
+                allowed = allowed | {2}
+            if kind not in allowed:
+                return (f"{what}: {why}; expected {' or '.join(KIND[k] for k in sorted(allowed))}, got {KIND.get(kind, kind)}"
+                        + (f" {res}" if kind == 0 else "")), None
+            return None, None
+        if kind == 2 and maybe_key:
+            return None, None
+        if kind == 2:
+            return f"{what}: KeyError although every ctx.<key> item follows an item that records the key", None
+        if kind == 3:
+            return f"{what}: IndexError although every index is one the stack can load", None
+        if kind == 5:
+            return f"{what}: a loader's exception although no loader of these samples raises", None
+        return None, done
+
     for t, (acc, o) in enumerate(zip(case["hist"], obs["hist"])):
         what = f"access #{t} {acc}"
         ref = ref_indices(n, acc)
@@ -751,17 +994,17 @@ def oracle(case, obs):
             if o["kind"] != 1:
                 return f"{what}: slice step 0 must raise ValueError"
             continue
-        many, idxs = ref
+        many, raw = ref
         if o["kind"] == 1:
             return f"{what}: ValueError"
-        stat = [keyerror_status(case, j) for j in idxs]
-        if o["kind"] == 2:
-            if all(s == "never" for s in stat):
-                return f"{what}: KeyError although every ctx.<key> item follows an item that records the key"
+        msg, idxs = judge(access_steps(case, n, raw), o["kind"], o.get("res"), what)
+        if msg:
+            return msg
+        if idxs is None:
             continue
-        if "must" in stat:
-            return (f"{what}: a ctx.<key> item whose key no loader of the sample recorded before it returned a value: "
-                    f"{o['res']}")
+        if case.get("probe") == "above_range" and any(r >= n for r in raw):
+            return (f"{what}: index {[r for r in raw if r >= n][0]} >= len(dataset) = {n}: Python sequence semantics is "
+                    f"IndexError, the wrapped dataset returned {o['res']}")
         if o["many"] != many:
             return f"{what}: returned {'a list' if o['many'] else 'one sample'}"
         msg = check_many(idxs, o["res"], what)
@@ -773,18 +1016,121 @@ def oracle(case, obs):
                 return (f"{what}: the stack was asked for {o['log']}; the mode needs, per sample, "
                         f"{exp_log[:len(exp_log) // max(len(idxs), 1)]} (joint loads where a complete set of a group stands)")
     it = obs["iter"]
-    stat = [keyerror_status(case, j) for j in range(n)]
-    if isinstance(it, dict):
+    if it["kind"] == 9:
         return f"iteration raised {it.get('exc')}"
-    if it is None:
-        if all(s == "never" for s in stat):
-            return "iteration: KeyError although every ctx.<key> item follows an item that records the key"
-    else:
-        if "must" in stat:
-            return "iteration: a ctx.<key> item whose key was never recorded returned a value"
-        msg = check_many(list(range(n)), it, "iteration")
+    msg, idxs = judge([("s", j) for j in range(n)], it["kind"], it["res"], "iteration")
+    if msg:
+        return msg
+    if idxs is not None:
+        msg = check_many(list(range(n)), it["res"], "iteration")
         if msg:
             return msg
+    else:
+        # the samples yielded before the exception are the first ones
+        m = len(it["res"])
+        msg = check_many(list(range(m)), it["res"], "iteration (before the exception)") if m <= n else \
+            f"iteration yielded {m} samples of a dataset of length {n} and then raised"
+        if msg:
+            return msg
+    msg = _deleg_oracle(case, obs)
+    if msg:
+        return msg
+    if case.get("dl"):
+        return _dl_oracle(case, obs, n)
+    return None
+
+
+def attr_provider(case, name):
+    """outermost layer (level) that defines the marker attribute, None when no layer does"""
+    for level in range(n_levels(case), 0, -1):
+        if name in case["layers"][level - 1].get("attrs", []):
+            return level
+    return 0 if name in case["root"].get("attrs", []) else None
+
+
+def _deleg_oracle(case, obs):
+    d = obs.get("deleg")
+    if d is None:
+        return None
+    for a in ATTR_POOL:
+        if d[a] != attr_provider(case, a):
+            return (f"ModeWrapper.{a} resolved to the definition of layer {d[a]}, the outermost layer defining it is "
+                    f"{attr_provider(case, a)} (None = AttributeError)")
+    if d["mode"] != case["mode"] or d["return_ctx"] != case["rc"]:
+        return f"ModeWrapper.mode / return_ctx = {d['mode']!r} / {d['return_ctx']}"
+    for k in ("dataset_is", "getitems", "root_is", "wrappers", "types", "has_self", "has_inner", "of_type", "collators"):
+        if d[k] is not True:
+            return f"ModeWrapper introspection '{k}' does not resolve through the wrapped stack"
+    if d["has_other"]:
+        return "ModeWrapper.has_wrapper / has_wrapper_type true for an object that is not in the stack"
+    if d["fused_operations"] != "RuntimeError" or d["requires_propagate_ctx"] != "RuntimeError":
+        return "ModeWrapper.fused_operations / requires_propagate_ctx must refuse (RuntimeError)"
+    if d["enter"] is not True:
+        return f"'with ModeWrapper(...) as m' did not yield the wrapper: {d['enter']}"
+    want = [0, 0] if is_torch(case) else [1, 2]
+    if d["disposed"] != want:
+        return (f"ModeWrapper.dispose() / leaving a with-block disposed the root dataset {d['disposed']} times "
+                f"(cumulative), expected {want}")
+    return None
+
+
+def _seq(e):
+    """elements of a collated sequence (default_collate returns lists, or the transposed tuples as they are for strings)"""
+    return e["l"] if "l" in e else e.get("t")
+
+
+def _match(tmpl, coll, k):
+    """is sample `tmpl` the k-th element of the default-collated batch `coll` (both in enc() form)"""
+    if "t" in tmpl:
+        cs = _seq(coll)
+        return cs is not None and len(cs) == len(tmpl["t"]) and all(_match(a, b, k) for a, b in zip(tmpl["t"], cs))
+    if "d" in tmpl:
+        return "d" in coll and [kv[0] for kv in coll["d"]] == [kv[0] for kv in tmpl["d"]] and \
+            all(_match(a[1], b[1], k) for a, b in zip(tmpl["d"], coll["d"]))
+    cs = _seq(coll)
+    return cs is not None and k < len(cs) and cs[k] == tmpl
+
+
+def _dl_oracle(case, obs, n):
+    d = obs.get("dl")
+    dl = case["dl"]
+    if d is None:
+        return None
+    it = obs["iter"]
+    if it["kind"] != 0:
+        return None         # plain iteration already ends in an exception (judged above)
+    if "exc" in d:
+        return f"DataLoader over the ModeWrapper raised {d['exc']}"
+    chunks = [list(range(a, min(a + dl["bs"], n))) for a in range(0, n, dl["bs"])]
+    if dl["drop_last"]:
+        chunks = [c for c in chunks if len(c) == dl["bs"]]
+    if len(d["batches"]) != len(chunks):
+        return f"DataLoader(batch_size={dl['bs']}, drop_last={dl['drop_last']}) yielded {len(d['batches'])} batches for {n} samples"
+    items = items_of(case)
+    for b, (chunk, batch, hs) in enumerate(zip(chunks, d["batches"], d["helpers"])):
+        for k, j in enumerate(chunk):
+            if not _match(it["res"][j], batch, k):
+                return (f"DataLoader batch {b}: element {k} is not sample {j} of the wrapped dataset "
+                        f"({it['res'][j]} vs batch {batch})")
+        body = _seq(batch)[0] if case["rc"] else batch
+        if len(items) == 1:
+            # a one-item batch is bare: a tensor is handed back as it is and replaced by the value; a batch that is itself
+            # a list / tuple (strings, multi-view items) is indistinguishable from a several-item batch for the static
+            # helpers: not claimed
+            o = hs[items[0]]
+            if o["bare"] and (o.get("get") != body or o.get("set") != {"s": "V"}):
+                return f"DataLoader batch {b}: get_item/set_item on the bare batch of mode {case['mode']!r} gave {o}"
+            continue
+        comps = _seq(body)
+        for it_name, o in hs.items():
+            pos = items.index(it_name)
+            if "exc" in o:
+                return f"DataLoader batch {b}: get_item/set_item({case['mode']!r}, {it_name!r}) raised {o['exc']}"
+            if o["get"] != comps[pos]:
+                return f"DataLoader batch {b}: get_item({case['mode']!r}, {it_name!r}) = {o['get']}, position {pos} holds {comps[pos]}"
+            exp = {"t": [({"s": "V"} if q == pos else c) for q, c in enumerate(comps)]}
+            if o["set"] != exp or o["getset"] != {"s": "V"}:
+                return f"DataLoader batch {b}: set_item({case['mode']!r}, {it_name!r}) = {o['set']}, expected {exp}"
     return None
 
 
@@ -851,9 +1197,9 @@ def coq_applicable(case, obs):
             return False
         if o["kind"] == 0 and not _samples_ok(o["res"], nitems, case["rc"]):
             return False
-    if isinstance(obs["iter"], dict):
+    if obs["iter"]["kind"] == 9:
         return False
-    if obs["iter"] is not None and not _samples_ok(obs["iter"], nitems, case["rc"]):
+    if obs["iter"]["kind"] == 0 and not _samples_ok(obs["iter"]["res"], nitems, case["rc"]):
         return False
     return True
 
@@ -871,7 +1217,7 @@ def coq_case(case, obs):
         rows = []
         for i in range(n):
             w = []
-            v = exp_load(case, lvl, s, i, w)
+            v = exp_load(case, lvl, s, i, w)      # (accesses that run into a raising loader are not evaluated in Coq)
             rows.append((cval(enc(v)), [(cstr(k), C("VStr", cstr(val))) for k, val in w]))
         tab.append((cstr(s), rows))
     hist = []
@@ -904,7 +1250,7 @@ def coq_case(case, obs):
     plan = []
     for nm, ix in obs.get("plan", []):
         plan.append((cstr(nm), C("Fused", [Nat(i) for i in ix]) if isinstance(ix, list) else C("Plain", Nat(ix))))
-    it = obs.get("iter") if obs["init"] == 0 else None
+    it = obs["iter"]["res"] if obs["init"] == 0 and obs["iter"]["kind"] == 0 else None
     return coq(Rec(
         c_len=n, c_groups=[[cstr(op) for op in g] for g in declared_groups(case)], c_req=declared_req(case),
         c_has_type=[cstr(s) for s in names if on_type(case, s)],
@@ -912,6 +1258,7 @@ def coq_case(case, obs):
         c_tab=tab, c_stamp=stamped(case), c_mode=cstr(case["mode"]), c_rc=rc, c_init=Nat(obs["init"]), c_plan=plan,
         c_prop=bool(obs.get("prop", False)), c_hist=hist,
         c_iter=Opt([cres(e, nitems, rc) for e in it]) if it is not None else Raw("None"),
+        c_iter_kind=Nat(obs["iter"]["kind"] if obs["init"] == 0 else 0),
         c_lenobs=obs.get("lenobs", n), c_helpers=helpers, c_torch=torch))
 
 
@@ -925,13 +1272,30 @@ def gen_writes(rng):
     return out
 
 
+HUGE = 10 ** 20
+
+
 def gen_access(rng, n):
     kinds = ["int", "neg", "slice", "slice", "list"] if n > 0 else ["slice", "list"]
     k = rng.choice(kinds)
+    if rng.random() < 0.08:
+        # out of range: below -len (IndexError by the property), at / above len (handed to the loaders)
+        r = rng.choice([-n - 1, -n - 1, -n - 2, -2 * n - 1, -HUGE, n, n, n + 1, 2 * n + 1, HUGE])
+        if rng.random() < 0.7:
+            return {"k": "int", "i": r}
+        l = [rng.randrange(-n, n) for _ in range(rng.choice([0, 1, 2]))] if n > 0 else []
+        l.insert(rng.randint(0, len(l)), r)
+        return {"k": "list", "l": l}
     if k == "int":
-        return {"k": "int", "i": rng.randrange(n)}
-    if k == "neg":
-        return {"k": "int", "i": -rng.randint(1, n)}
+        acc = {"k": "int", "i": rng.randrange(n)}
+    elif k == "neg":
+        acc = {"k": "int", "i": -rng.randint(1, n)}
+    else:
+        acc = None
+    if acc is not None:
+        if rng.random() < 0.1:
+            acc["ty"] = "np"      # numpy integer index (what a numpy-based sampler hands over)
+        return acc
     if k == "list":
         if n == 0:
             return {"k": "list", "l": []}
@@ -945,6 +1309,9 @@ def gen_access(rng, n):
 
 def gen_helper(rng):
     its = [rng.choice(POOL + ["index"]) for _ in range(rng.choice([1, 1, 2, 3, 4]))]
+    if rng.random() < 0.1:
+        # whitespace variants: double / leading / trailing spaces give empty items, repeated items
+        its.insert(rng.randint(0, len(its)), rng.choice(["", "", its[0]]))
     mode = " ".join(its)
     item = rng.choice(its) if rng.random() < 0.8 else rng.choice(POOL + ["index", "ctx.k"])
     if rng.random() < 0.3:
@@ -964,7 +1331,7 @@ def gen_torch(rng):
             "item": rng.choice(its) if rng.random() < 0.8 else rng.choice(POOL)}
 
 
-def gen_case(rng, big=False):
+def gen_case(rng, big=False, dl_p=0.07):
     size = rng.choice([0, 1, 2, 3, 3, 4, 5, 6] + ([8, 11] if big else []))
     torch_root = rng.random() < 0.08
     rnames = rng.sample(POOL, rng.randint(2, 5))
@@ -1077,6 +1444,17 @@ def gen_case(rng, big=False):
     case["hist"] = [gen_access(rng, n) for _ in range(rng.randint(1, 6))]
     case["helpers"] = [gen_helper(rng) for _ in range(rng.choice([0, 0, 1, 2, 3]))]
     case["torch"] = [gen_torch(rng) for _ in range(rng.choice([0, 0, 0, 1, 2]))]
+    # marker attributes defined at random layers (shadowing included): ModeWrapper.__getattr__ delegation
+    for a in ATTR_POOL:
+        for Lr in ([] if torch_root else [root]) + layers:
+            if rng.random() < 0.3:
+                Lr.setdefault("attrs", []).append(a)
+    # loaders raising mid-sample (after their ctx writes): the next access must start from a fresh ctx
+    if not torch_root and n > 0 and rng.random() < 0.12:
+        cands = [(0, s0) for s0 in root["items"]] + [(k + 1, s0) for k, Lr in enumerate(layers) if Lr["t"] == "wrap"
+                                                      for s0 in Lr["impl"]]
+        case["raises"] = [[lv, nm, rng.randrange(max(level_len(case, lv), 1))]
+                          for lv, nm in rng.sample(cands, min(len(cands), rng.choice([1, 1, 2])))]
     if not torch_root and rng.random() < 0.4 and not any("index" in g for g in groups):
         # call stamps need a ctx on every call: some layer requires ctx propagation
         case["stamp"] = True
@@ -1086,7 +1464,22 @@ def gen_case(rng, big=False):
                 rng.choice(wraps)["req"] = True
             else:
                 root["req"] = True
+    if n > 0 and not case.get("raises") and rng.random() < dl_p and dl_eligible(case):
+        case["dl"] = {"bs": rng.choice([1, 2, 2, 3, 4]), "drop_last": rng.random() < 0.3, "workers": 0}
     return case
+
+
+def dl_eligible(case):
+    """default_collate needs uniform samples: no index-dependent ctx keys, every ctx.<key> item and every loader
+    available (the constructor accepts the mode), no sample ends in KeyError"""
+    ws = [w for ws_ in case["root"]["items"].values() for w in ws_]
+    ws += [w for L in case["layers"] if L["t"] == "wrap" for ws_ in L["impl"].values() for w in ws_]
+    if any(per for _, per in ws) or not in_domain(case) or "" in items_of(case):
+        return False
+    try:
+        return all(keyerror_status(case, j) == "never" for j in range(outer_len(case)))
+    except (LookupError, IndexError):
+        return False
 
 
 def _mk(size, root_items, layers, mode, rc, hist, stamp=False):
@@ -1134,6 +1527,42 @@ def directed_cases():
     out.append(_mk(3, root, [inner, outer], "class index x", False, hist))
     out.append(_mk(3, root, [inner, {"t": "wrap", "impl": {}, "fused": [], "joint": {}, "req": False}], "x class", False, hist))
     out.append(_mk(5, root, [{"t": "sub", "indices": [4, 4, 0]}, fused_layer([["x", "class"]])], "class x index", True, hist))
+    # whitespace in the mode string: split(" ") yields empty items, which no dataset can load -> rejected
+    for md in ("x  class", " x", "x ", "", " ", "x class ", "  ", "index  index", "x\u00a0class"):
+        out.append(_mk(3, root, [], md, False, hist[:1]))
+        out.append(_mk(3, root, [fused_layer([["x", "class"]])], md, True, hist[:1]))
+    # out-of-range ints: below -len (IndexError), at / above len (handed to the loaders), huge, inside lists, numpy ints
+    oor = [{"k": "int", "i": -4}, {"k": "int", "i": -3}, {"k": "int", "i": 3}, {"k": "int", "i": -HUGE},
+           {"k": "int", "i": HUGE}, {"k": "list", "l": [0, -4, 1]}, {"k": "list", "l": [2, 3]},
+           {"k": "int", "i": -1, "ty": "np"}, {"k": "int", "i": 2, "ty": "np"}, {"k": "int", "i": -4, "ty": "np"},
+           {"k": "int", "i": 1}]
+    for md, lay in (("x index", []), ("index", []), ("class x index ctx.k", [fused_layer([["x", "class"]])]),
+                    ("x index", [{"t": "sub", "indices": [2, 0, 1]}]), ("index x", [{"t": "sub", "indices": []}])):
+        for rc in (False, True):
+            out.append(_mk(3, root, lay, md, rc, oor))
+    # loaders raising mid-sample after their ctx writes, in the middle of a history: fresh ctx afterwards
+    hist2 = [{"k": "int", "i": 0}, {"k": "int", "i": 1}, {"k": "int", "i": 2}, {"k": "list", "l": [0, 1, 2]},
+             {"k": "slice", "a": None, "b": None, "s": -1}, {"k": "int", "i": 0}]
+    for md in ("x class ctx.k", "class x", "x index"):
+        for rs in ([[0, "class", 1]], [[1, "x", 1]], [[0, "x", 0], [1, "class", 2]]):
+            for rc in (False, True):
+                c = _mk(3, root, [fused_layer([]) if md != "class x" else fused_layer([["x", "class"]])], md, rc, hist2,
+                        stamp=rc)
+                c["raises"] = rs
+                out.append(c)
+    # real DataLoader, every batch size, with / without ctx, over a subset (the __getitems__ of torch Subset must not be used)
+    plain = {"x": [["k", False]], "class": [], "semseg": []}
+    for md in ("x", "index", "x class index", "index x x", "class ctx.k x"):
+        for rc in (False, True):
+            for bs, dlast in ((1, False), (2, False), (2, True), (5, False)):
+                for lay in ([], [{"t": "sub", "indices": [4, 0, 2, 2, 1]}],
+                            [{"t": "wrap", "impl": {"x": [["k", False]], "class": []}, "fused": [["x", "class"]],
+                              "joint": {"xclass": ["x", "class"]}, "req": False}]):
+                    if "ctx.k" in md and not (lay and lay[0]["t"] == "wrap") and md.index("ctx.k") < md.index("x"):
+                        continue
+                    c = _mk(5, plain, lay, md, rc, hist[:2])
+                    c["dl"] = {"bs": bs, "drop_last": dlast, "workers": 0}
+                    out.append(c)
     return out
 
 
@@ -1143,6 +1572,14 @@ def gen_cases(rng, tier):
     out += [gen_case(rng) for _ in range(n)]
     if tier == "thorough":
         out += [gen_case(rng, big=True) for _ in range(1500)]
+        # DataLoader with worker processes
+        k = 0
+        for c in [gen_case(rng, big=True, dl_p=1.0) for _ in range(120)] + [c for c in directed_cases() if c.get("dl")][::7]:
+            if c.get("dl") and k < 14:
+                c = dict(c)
+                c["dl"] = dict(c["dl"], workers=2)
+                out.append(c)
+                k += 1
     return out
 
 
@@ -1184,6 +1621,18 @@ def features(case, obs):
     yield "init=%s" % obs.get("init")
     if any(L["t"] == "sub" for L in case["layers"]):
         yield "has_subset"
+    if case.get("raises"):
+        yield "raising-loader"
+    if case.get("dl"):
+        yield "dataloader:workers=%d" % case["dl"]["workers"]
+        if "dl" in obs and "exc" not in obs["dl"]:
+            yield "dataloader:batches=%d" % min(len(obs["dl"]["batches"]), 4)
+    if any(x == "" for x in items_of(case)):
+        yield "mode:empty-item(whitespace)"
+    if any(attr_provider(case, a) not in (None, n_levels(case)) for a in ATTR_POOL):
+        yield "attr-delegated-below-outermost"
+    if obs.get("iter", {}).get("kind"):
+        yield "iter-kind=%d" % obs["iter"]["kind"]
     its = items_of(case)
     if "index" in its:
         yield "mode:index"
@@ -1192,6 +1641,14 @@ def features(case, obs):
     if len(set(its)) < len(its):
         yield "mode:duplicates"
     for acc in case["hist"]:
+        raw = [acc["i"]] if acc["k"] == "int" else (acc["l"] if acc["k"] == "list" else [])
+        n_ = outer_len(case)
+        if any(r < -n_ for r in raw):
+            yield "idx:below-range"
+        if any(r >= n_ for r in raw):
+            yield "idx:above-range"
+        if acc.get("ty") == "np":
+            yield "idx:numpy-int"
         if acc["k"] == "int":
             yield "idx:negative" if acc["i"] < 0 else "idx:int"
         elif acc["k"] == "slice":
@@ -1224,6 +1681,14 @@ def shrink(case):
         c = dict(case)
         c.update(kw)
         return c
+    if case.get("dl"):
+        yield cp(dl=None)
+        if case["dl"]["workers"]:
+            yield cp(dl=dict(case["dl"], workers=0))
+    if case.get("raises"):
+        yield cp(raises=[])
+        for i in range(len(case["raises"])):
+            yield cp(raises=case["raises"][:i] + case["raises"][i + 1:])
     if case.get("helpers"):
         yield cp(helpers=[])
         for i in range(len(case["helpers"])):
